@@ -595,8 +595,18 @@ func (l *Loop) Close() {
 	l.farm.srv.Close()
 }
 
-// Cycles returns the number of coordination cycles that reached shard 0 so far.
-func (l *Loop) Cycles() int64 { return atomic.LoadInt64(&l.shards[0].rtGets) }
+// Cycles returns the number of coordination cycles seen so far: the largest count of runtimeinfo requests at
+// any shard. (Not shard 0 alone: the coordinator asks a shard for its target status first and skips the
+// runtimeinfo request when that fails, so a shard whose API is made unreachable stops counting.)
+func (l *Loop) Cycles() int64 {
+	var m int64
+	for _, s := range l.shards {
+		if c := atomic.LoadInt64(&s.rtGets); c > m {
+			m = c
+		}
+	}
+	return m
+}
 
 // ScrapeAll lets every shard's Prometheus scrape once.
 func (l *Loop) ScrapeAll() {
